@@ -585,13 +585,13 @@ Qed.
 Lemma lead_of_le m p q sall : (lead_of m p q sall <= length sall)%nat.
 Proof. unfold lead_of. pose proof (lead_le_length q (rhs_of m p sall) 0 (map (spow m) sall)) as H. rewrite map_length in H. exact H. Qed.
 
-Lemma thr_spec_closed m p q sall : cumulative m = true -> 0 < q -> nonneg sall -> sall <> [] ->
-  thr_cut_spec m p q sall =
+Lemma thr_cut_closed m p q sall : cumulative m = true -> 0 < q -> nonneg sall -> sall <> [] ->
+  thr_cut m p q sall =
   if Nat.ltb (lead_of m p q sall) (length sall) then q * nth (lead_of m p q sall) sall 0
   else q * (last sall 0 + 1).
 Proof.
   intros Hc Hq Hn Hne. pose proof (lead_of_le m p q sall) as Hle.
-  assert (E : thr_cut_spec m p q sall = match n_chi_all m p q sall with
+  assert (E : thr_cut m p q sall = match n_chi_all m p q sall with
                                          | O => q * (last sall 0 + 1)
                                          | n => q * py_neg_index sall n end)
     by (destruct m; try discriminate; reflexivity).
@@ -603,42 +603,8 @@ Proof.
   - apply Nat.ltb_ge in El. replace (length sall - lead_of m p q sall)%nat with O by lia. reflexivity.
 Qed.
 
-Lemma thr_impl_closed m p q sall : cumulative m = true -> 0 < q -> nonneg sall -> sall <> [] ->
-  thr_cut_impl m p q sall =
-  if Nat.ltb (lead_of m p q sall) (length sall) then q * nth (lead_of m p q sall) sall 0
-  else q * nth 0 sall 0.
-Proof.
-  intros Hc Hq Hn Hne. pose proof (lead_of_le m p q sall) as Hle.
-  assert (E : thr_cut_impl m p q sall = q * py_neg_index sall (n_chi_all m p q sall))
-    by (destruct m; try discriminate; reflexivity).
-  rewrite E, n_chi_all_lead by assumption.
-  destruct (Nat.ltb (lead_of m p q sall) (length sall)) eqn:El.
-  - apply Nat.ltb_lt in El. destruct (length sall - lead_of m p q sall)%nat eqn:En; [lia|].
-    unfold py_neg_index. rewrite <- En.
-    replace (length sall - (length sall - lead_of m p q sall))%nat with (lead_of m p q sall) by lia. reflexivity.
-  - apply Nat.ltb_ge in El. replace (length sall - lead_of m p q sall)%nat with O by lia. reflexivity.
-Qed.
 
-(* the cutoff does not exceed the total weight  <->  some cumulative sum reaches it *)
-Lemma within_total_lead m p q sall : sall <> [] ->
-  rhs_of m p sall <= q * weight m sall -> (lead_of m p q sall < length sall)%nat.
-Proof.
-  intros Hne H. pose proof (lead_of_le m p q sall) as Hle.
-  destruct (Nat.eq_dec (lead_of m p q sall) (length sall)) as [Heq|]; [|lia].
-  exfalso. unfold lead_of in Heq. rewrite <- (map_length (spow m)) in Heq.
-  apply lead_full in Heq; [unfold weight in H; lia|]. destruct sall; [congruence|discriminate].
-Qed.
 
-Lemma impl_eq_spec_within m p q sall : 0 < q -> nonneg sall -> sall <> [] ->
-  (cumulative m = true -> rhs_of m p sall <= q * weight m sall) ->
-  thr_cut_impl m p q sall = thr_cut_spec m p q sall.
-Proof.
-  intros Hq Hn Hne Hw. destruct (cumulative m) eqn:Hc.
-  - rewrite thr_impl_closed, thr_spec_closed by assumption.
-    pose proof (within_total_lead m p q sall Hne (Hw eq_refl)) as Hl.
-    apply Nat.ltb_lt in Hl. rewrite Hl. reflexivity.
-  - destruct m; try discriminate; reflexivity.
-Qed.
 
 (* ================================================================ cutoff_maximal *)
 Lemma asc_firstn_S_le l i x : asc l -> (i < length l)%nat -> In x (firstn (S i) l) -> x <= nth i l 0.
@@ -686,15 +652,15 @@ Proof. intros H x Hx. apply H. eapply In_skipn. exact Hx. Qed.
    (2) D contains every lower set {s < t} whose weight is below the cutoff:
    D is the LARGEST lower set of the spectrum with weight < cutoff.  When the
    value at the boundary is not tied this is the longest ascending prefix. *)
-Theorem cutoff_maximal_spec m p q sall :
+Theorem cutoff_maximal m p q sall :
   cumulative m = true -> 0 < q -> asc sall -> nonneg sall -> sall <> [] ->
   let rhs := rhs_of m p sall in
-  let a := thr_cut_spec m p q sall in
+  let a := thr_cut m p q sall in
   (0 < rhs -> q * weight m (filter (fun s => q * s <? a) sall) < rhs) /\
   (forall t, q * weight m (filter (fun s => s <? t) sall) < rhs ->
              forall s, In s sall -> s < t -> q * s < a).
 Proof.
-  intros Hc Hq Hasc Hn Hne rhs a. subst a. rewrite thr_spec_closed by assumption.
+  intros Hc Hq Hasc Hn Hne rhs a. subst a. rewrite thr_cut_closed by assumption.
   set (d := lead_of m p q sall). pose proof (lead_of_le m p q sall) as Hdle. fold d in Hdle.
   destruct (Nat.ltb d (length sall)) eqn:El.
   - apply Nat.ltb_lt in El. set (v := nth d sall 0). split.
@@ -731,25 +697,8 @@ Proof.
     + intros t _ s Hs _. pose proof (asc_le_last sall s Hasc Hs). nia.
 Qed.
 
-(* the cutoff is within the total weight: some cumulative sum reaches it *)
-Definition within_total (m : cmode) (p q : Z) (sall : list Z) : Prop :=
-  cumulative m = true -> rhs_of m p sall <= q * weight m sall.
 
-Theorem cutoff_maximal_impl m p q sall :
-  cumulative m = true -> 0 < q -> asc sall -> nonneg sall -> sall <> [] ->
-  within_total m p q sall ->
-  let rhs := rhs_of m p sall in
-  let a := thr_cut_impl m p q sall in
-  (0 < rhs -> q * weight m (filter (fun s => q * s <? a) sall) < rhs) /\
-  (forall t, q * weight m (filter (fun s => s <? t) sall) < rhs ->
-             forall s, In s sall -> s < t -> q * s < a).
-Proof.
-  intros Hc Hq Hasc Hn Hne Hw rhs a. subst a.
-  rewrite (impl_eq_spec_within m p q sall Hq Hn Hne Hw).
-  exact (cutoff_maximal_spec m p q sall Hc Hq Hasc Hn Hne).
-Qed.
-
-(* ---- what the code does when the cutoff exceeds the total weight (F7) *)
+(* ---- the cutoff exceeds the total weight: nothing is kept (the guard `n_chi_all == 0`) *)
 Lemma lead_all q rhs acc w : 0 < q -> nonneg w -> q * (acc + zsum w) < rhs -> lead q rhs acc w = length w.
 Proof.
   intros Hq. revert acc. induction w as [|x t IH]; intros acc Hn H; [reflexivity|].
@@ -759,26 +708,13 @@ Proof.
   rewrite E. f_equal. apply IH; [exact Ht|]. replace (acc + x + zsum t) with (acc + (x + zsum t)) by lia. exact H.
 Qed.
 
-Theorem impl_above_total_keeps_all m p q sall :
-  cumulative m = true -> 0 < q -> asc sall -> nonneg sall -> sall <> [] ->
-  q * weight m sall < rhs_of m p sall ->
-  forall s, In s sall -> thr_cut_impl m p q sall <= q * s.
-Proof.
-  intros Hc Hq Hasc Hn Hne Hab s Hs. rewrite thr_impl_closed by assumption.
-  assert (Hd : lead_of m p q sall = length sall).
-  { unfold lead_of. rewrite <- (map_length (spow m) sall). apply lead_all; [exact Hq | apply nonneg_map_spow; exact Hn|].
-    unfold weight in Hab. lia. }
-  rewrite Hd, Nat.ltb_irrefl.
-  destruct sall as [|x t]; [congruence|]. cbn [nth]. destruct Hs as [<-|Hs]; [lia|].
-  destruct Hasc as [H1 _]. apply H1 in Hs. nia.
-Qed.
 
-Theorem spec_above_total_keeps_none m p q sall :
+Theorem above_total_keeps_none m p q sall :
   cumulative m = true -> 0 < q -> asc sall -> nonneg sall -> sall <> [] ->
   q * weight m sall < rhs_of m p sall ->
-  forall s, In s sall -> q * s < thr_cut_spec m p q sall.
+  forall s, In s sall -> q * s < thr_cut m p q sall.
 Proof.
-  intros Hc Hq Hasc Hn Hne Hab s Hs. rewrite thr_spec_closed by assumption.
+  intros Hc Hq Hasc Hn Hne Hab s Hs. rewrite thr_cut_closed by assumption.
   assert (Hd : lead_of m p q sall = length sall).
   { unfold lead_of. rewrite <- (map_length (spow m) sall). apply lead_all; [exact Hq | apply nonneg_map_spow; exact Hn|].
     unfold weight in Hab. lia. }
@@ -788,10 +724,10 @@ Qed.
 (* modes 1 and 2 keep nothing above the largest value / above relative cutoff 1 *)
 Lemma abs_rel_above_keep_none m p q sall s : cumulative m = false -> 0 < q -> asc sall -> nonneg sall -> In s sall ->
   (if relative m then q < p else q * last sall 0 < p) ->
-  0 < last sall 0 -> q * s < thr_cut_impl m p q sall.
+  0 < last sall 0 -> q * s < thr_cut m p q sall.
 Proof.
   intros Hc Hq Hasc Hn Hs Hp Hpos. pose proof (asc_le_last sall s Hasc Hs).
-  destruct m; try discriminate; cbn [relative thr_cut_impl] in *; nia.
+  destruct m; try discriminate; cbn [relative thr_cut] in *; nia.
 Qed.
 
 (* ================================================================ cutoff_monotone *)
@@ -801,11 +737,11 @@ Proof.
   pose proof (weight_nonneg m sall Hn). nia.
 Qed.
 
-Lemma thr_spec_mono m p p' q sall : 0 < q -> asc sall -> nonneg sall -> sall <> [] -> p <= p' ->
-  thr_cut_spec m p q sall <= thr_cut_spec m p' q sall.
+Lemma thr_cut_mono m p p' q sall : 0 < q -> asc sall -> nonneg sall -> sall <> [] -> p <= p' ->
+  thr_cut m p q sall <= thr_cut m p' q sall.
 Proof.
   intros Hq Hasc Hn Hne Hp. destruct (cumulative m) eqn:Hc.
-  - rewrite !thr_spec_closed by assumption.
+  - rewrite !thr_cut_closed by assumption.
     pose proof (lead_mono q _ _ 0 (map (spow m) sall) (rhs_of_mono m p p' sall Hn Hp)) as Hl.
     fold (lead_of m p q sall) in Hl. fold (lead_of m p' q sall) in Hl.
     destruct (Nat.ltb (lead_of m p' q sall) (length sall)) eqn:E'.
@@ -817,7 +753,7 @@ Proof.
     { destruct sall as [|x t]; [congruence|].
       assert (0 <= x) by (apply Hn; left; reflexivity).
       pose proof (asc_le_last (x :: t) x Hasc (or_introl eq_refl)). lia. }
-    destruct m; try discriminate; cbn [thr_cut_spec]; nia.
+    destruct m; try discriminate; cbn [thr_cut]; nia.
 Qed.
 
 Lemma keep_count_antitone q a a' ss : a <= a' -> (keep_count q a' ss <= keep_count q a ss)%nat.
@@ -844,10 +780,10 @@ Proof.
 Qed.
 
 (* asking for a larger cutoff never keeps more, sector by sector *)
-Theorem cutoff_monotone_spec m p p' q mb secs counts counts' :
+Theorem cutoff_monotone m p p' q mb secs counts counts' :
   0 < q -> 0 < p -> p <= p' -> sectors_nonneg secs -> all_values secs <> [] ->
-  sub_max_bonds thr_cut_spec m p q mb secs = Some counts ->
-  sub_max_bonds thr_cut_spec m p' q mb secs = Some counts' ->
+  sub_max_bonds thr_cut m p q mb secs = Some counts ->
+  sub_max_bonds thr_cut m p' q mb secs = Some counts' ->
   Forall2 le counts' counts.
 Proof.
   intros Hq Hp Hpp Hn Hne Hs Hs'. unfold sub_max_bonds in Hs, Hs'.
@@ -856,29 +792,9 @@ Proof.
   destruct secs as [|cs0 t]; [discriminate|]. injection Hs as <-. injection Hs' as <-.
   unfold sub_counts_cut. apply Forall2_map_le. intros cs _. apply keep_count_antitone.
   unfold final_threshold. apply fold_bond_mono.
-  apply thr_spec_mono; try assumption; [apply sort_asc_asc | apply nonneg_sall; exact Hn | apply sall_nonempty; exact Hne].
+  apply thr_cut_mono; try assumption; [apply sort_asc_asc | apply nonneg_sall; exact Hn | apply sall_nonempty; exact Hne].
 Qed.
 
-(* the code satisfies it as long as the LARGER cutoff stays within the total weight *)
-Theorem cutoff_monotone_impl m p p' q mb secs counts counts' :
-  0 < q -> 0 < p -> p <= p' -> sectors_nonneg secs -> all_values secs <> [] ->
-  within_total m p' q (sort_asc (all_values secs)) ->
-  sub_max_bonds thr_cut_impl m p q mb secs = Some counts ->
-  sub_max_bonds thr_cut_impl m p' q mb secs = Some counts' ->
-  Forall2 le counts' counts.
-Proof.
-  intros Hq Hp Hpp Hn Hne Hw Hs Hs'.
-  set (sall := sort_asc (all_values secs)) in *.
-  assert (Hnn : nonneg sall) by (apply nonneg_sall; exact Hn).
-  assert (Hnes : sall <> []) by (apply sall_nonempty; exact Hne).
-  assert (Hw0 : within_total m p q sall).
-  { intro Hc. specialize (Hw Hc). pose proof (rhs_of_mono m p p' sall Hnn Hpp). lia. }
-  apply (cutoff_monotone_spec m p p' q mb secs counts counts' Hq Hp Hpp Hn Hne).
-  - rewrite <- Hs. unfold sub_max_bonds, sub_counts_cut, final_threshold. fold sall.
-    rewrite (impl_eq_spec_within m p q sall Hq Hnn Hnes Hw0). reflexivity.
-  - rewrite <- Hs'. unfold sub_max_bonds, sub_counts_cut, final_threshold. fold sall.
-    rewrite (impl_eq_spec_within m p' q sall Hq Hnn Hnes Hw). reflexivity.
-Qed.
 
 (* ================================================================ no cutoff: calc_sub_max_bonds *)
 Lemma incr_nth_length l i : length (incr_nth l i) = length l.
@@ -1126,13 +1042,15 @@ Proof.
 Qed.
 
 (* sum2 cutoff 10 <= total weight 15: discards {1,1,2} (weight 6 < 10), keeps {3};
-   charge 1 is removed from the bond *)
-Example ex_within : sub_max_bonds thr_cut_impl MSum2 10 1 (-1) ex_secs = Some [1; 0]%nat
-                    /\ trunc_impl 3 10 1 (-1) ex_secs = Some [(0, 1%nat)]
-                    /\ within_total MSum2 10 1 (sort_asc (all_values ex_secs)).
-Proof. split; [reflexivity|]. split; [reflexivity|]. intros _. vm_compute. discriminate. Qed.
+   charge 1 is removed from the bond.  Cutoff 16 > 15: nothing is kept. *)
+Example ex_within : sub_max_bonds thr_cut MSum2 10 1 (-1) ex_secs = Some [1; 0]%nat
+                    /\ trunc 3 10 1 (-1) ex_secs = Some [(0, 1%nat)]
+                    /\ sub_max_bonds thr_cut MSum2 15 1 (-1) ex_secs = Some [1; 0]%nat
+                    /\ sub_max_bonds thr_cut MSum2 16 1 (-1) ex_secs = Some [0; 0]%nat
+                    /\ trunc 3 16 1 (-1) ex_secs = Some [].
+Proof. repeat split; reflexivity. Qed.
 
-Example ex_bond_tie : sub_max_bonds thr_cut_impl MRel 1 64 3 ex_secs = Some [2; 2]%nat
+Example ex_bond_tie : sub_max_bonds thr_cut MRel 1 64 3 ex_secs = Some [2; 2]%nat
                       /\ ~ no_tie_at_bond 3 (sort_asc (all_values ex_secs)).
 Proof.
   split; [reflexivity|]. intro H. specialize (H 1). vm_compute in H.
@@ -1142,37 +1060,7 @@ Qed.
 Example ex_no_cutoff : calc_sub_max_bonds [5; 3; 3] 7 = Some [3; 2; 2] /\ positive_sizes [5; 3; 3].
 Proof. split; [reflexivity|]. intros s [<-|[<-|[<-|[]]]]; lia. Qed.
 
-(* F7: the faithful model of the code keeps EVERYTHING once a cumulative cutoff
-   exceeds the total weight, and thereby breaks monotonicity and maximality;
-   modes 1/2 and the repaired rule keep nothing. *)
-Lemma impl_above_total_refuted :
-  exists m p p' q mb secs counts counts',
-    0 < q /\ 0 < p /\ p <= p' /\ sectors_desc secs /\ sectors_nonneg secs /\ all_values secs <> [] /\
-    sub_max_bonds thr_cut_impl m p q mb secs = Some counts /\
-    sub_max_bonds thr_cut_impl m p' q mb secs = Some counts' /\
-    (total_kept counts < total_kept counts')%nat /\
-    sub_max_bonds thr_cut_spec m p' q mb secs = Some [0; 0]%nat /\
-    sub_max_bonds thr_cut_impl MAbs p' q mb secs = Some [0; 0]%nat.
-Proof.
-  exists MSum2, 15, 16, 1, (-1), ex_secs, [1; 0]%nat, [2; 2]%nat.
-  destruct ex_shapes as [H1 [H2 H3]].
-  repeat split; try lia; try assumption; try reflexivity. vm_compute. lia.
-Qed.
 
-Lemma impl_not_maximal_refuted :
-  exists m p q sall,
-    cumulative m = true /\ 0 < q /\ asc sall /\ nonneg sall /\ sall <> [] /\
-    ~ (forall t, q * weight m (filter (fun s => s <? t) sall) < rhs_of m p sall ->
-                 forall s, In s sall -> s < t -> q * s < thr_cut_impl m p q sall).
-Proof.
-  exists MSum2, 16, 1, [1; 1; 2; 3].
-  split; [reflexivity|]. split; [lia|]. split; [cbn [asc In]; intuition lia|].
-  split; [intros x Hx; cbn [In] in Hx; intuition lia|]. split; [discriminate|].
-  intro Hall.
-  assert (K : 1 * 3 < thr_cut_impl MSum2 16 1 [1; 1; 2; 3]).
-  { apply (Hall 4); [vm_compute; reflexivity | cbn [In]; tauto | lia]. }
-  vm_compute in K. discriminate K.
-Qed.
 
 (* ================================================================ largest within each charge *)
 Lemma desc_app_ge l1 l2 : desc (l1 ++ l2) -> forall x y, In x l1 -> In y l2 -> y <= x.
@@ -1205,18 +1093,55 @@ Proof.
   apply prefix_largest. apply Hd. apply nth_In. exact Hj.
 Qed.
 
-(* the unrestricted monotonicity statement is FALSE of the code as written *)
-Definition monotone_unrestricted : Prop :=
-  forall m p p' q mb secs counts counts',
-    0 < q -> 0 < p -> p <= p' -> sectors_nonneg secs -> all_values secs <> [] ->
-    sub_max_bonds thr_cut_impl m p q mb secs = Some counts ->
-    sub_max_bonds thr_cut_impl m p' q mb secs = Some counts' ->
-    Forall2 le counts' counts.
 
-Lemma monotone_unrestricted_refuted : ~ monotone_unrestricted.
+(* ================================================================ the +inf stand-in *)
+(* `abs_cutoff = float("inf")` is represented by a numerator above q*s for every
+   value s.  Such a threshold is passed by no value and is left unchanged by the
+   bond fold (`max_bond_cutoff > inf` is False) — for ANY such numerator, so the
+   particular stand-in q*(max+1) is immaterial. *)
+Lemma keep_count_top q a ss : (forall s, In s ss -> q * s < a) -> keep_count q a ss = 0%nat.
+Proof. intro H. unfold keep_count. apply count_true_none. intros x Hx. apply Z.leb_gt. apply H. exact Hx. Qed.
+
+Lemma fold_bond_top q mb sall a : (forall s, In s sall -> q * s < a) -> fold_bond q mb sall a = a.
 Proof.
-  intro H. destruct ex_shapes as [_ [H2 H3]].
-  assert (K : Forall2 le [2; 2]%nat [1; 0]%nat).
-  { apply (H MSum2 15 16 1 (-1) ex_secs); try lia; try assumption; reflexivity. }
-  inversion K as [|? ? ? ? Hle _]; subst. lia.
+  intro H. unfold fold_bond.
+  destruct (0 <? mb) eqn:E1; destruct (mb <? Z.of_nat (length sall)) eqn:E2; cbn [andb]; try reflexivity.
+  apply Z.ltb_lt in E1. apply Z.ltb_lt in E2.
+  destruct (a <? q * py_neg_index sall (Z.to_nat mb)) eqn:E; [|reflexivity].
+  apply Z.ltb_lt in E. exfalso.
+  assert (Hin : In (py_neg_index sall (Z.to_nat mb)) sall).
+  { unfold py_neg_index. destruct (Z.to_nat mb) eqn:En; [lia|]. apply nth_In. lia. }
+  apply H in Hin. lia.
+Qed.
+
+Lemma inf_standin q mb sall a : (forall s, In s sall -> q * s < a) ->
+  fold_bond q mb sall a = a /\ (forall ss, (forall s, In s ss -> In s sall) -> keep_count q a ss = 0%nat).
+Proof.
+  intro H. split; [exact (fold_bond_top q mb sall a H)|].
+  intros ss Hss. apply keep_count_top. intros s Hs. apply H. apply Hss. exact Hs.
+Qed.
+
+(* whole pipeline: a cumulative cutoff above the total weight removes every sector,
+   whatever the bond limit (as modes 1 and 2 do above the largest value) *)
+Theorem above_total_nothing_kept m p q mb secs :
+  cumulative m = true -> 0 < q -> 0 < p -> sectors_nonneg secs -> all_values secs <> [] ->
+  q * weight m (sort_asc (all_values secs)) < rhs_of m p (sort_asc (all_values secs)) ->
+  sub_max_bonds thr_cut m p q mb secs = Some (map (fun _ => 0%nat) secs) /\
+  new_chargemap secs (map (fun _ => 0%nat) secs) = [].
+Proof.
+  intros Hc Hq Hp Hn Hne Hab.
+  destruct secs as [|cs0 t]; [exfalso; apply Hne; reflexivity|].
+  set (secs := cs0 :: t) in *. set (sall := sort_asc (all_values secs)) in *.
+  assert (Htop : forall s, In s sall -> q * s < thr_cut m p q sall).
+  { apply above_total_keeps_none; try assumption;
+      [apply sort_asc_asc | apply nonneg_sall; exact Hn | apply sall_nonempty; exact Hne]. }
+  split.
+  - unfold sub_max_bonds. assert (E : (0 <? p) = true) by (apply Z.ltb_lt; exact Hp). rewrite E.
+    change (Some (sub_counts_cut thr_cut m p q mb secs) = Some (map (fun _ : sector => 0%nat) secs)).
+    f_equal. unfold sub_counts_cut, final_threshold. fold sall. rewrite fold_bond_top by exact Htop.
+    apply map_ext_in. intros cs Hcs. apply keep_count_top. intros s Hs. apply Htop.
+    apply (Permutation_in _ (Permutation_sym (sort_asc_perm _))). unfold all_values.
+    apply in_concat. exists (snd cs). split; [apply in_map; exact Hcs | exact Hs].
+  - unfold new_chargemap. clear. induction secs as [|cs t' IH]; [reflexivity|].
+    cbn [map combine filter snd Nat.eqb negb]. exact IH.
 Qed.
